@@ -195,6 +195,15 @@ EvTruncate(ev) ==
        /\ obs' = ObsOf(ev, IsStrict(ev.a) => conf)
        /\ UNCHANGED <<vtx, inflight, trxu>>
 
+\* the book is not adopted: the node is shutting down and takes no further operation (its state may hold a vertex
+\* both in the graph and in the store, which no other action can produce)
+EvTruncateCancelled(ev) ==
+    LET n == ev.n
+        lb == LBook(ev.st, Ids)
+        conf == \E o \in TruncateCancelledOutcomes(book[n]) : o.res = ev.res /\ Same(o.b, lb)
+    IN /\ obs' = [GoodObs EXCEPT !.a = ev.a, !.conf = IsStrict(ev.a) => conf]
+       /\ UNCHANGED <<book, vtx, inflight, trxu>>
+
 EvTrust(ev) ==
     LET n == ev.n
         lb == LBook(ev.st, Ids)
@@ -286,6 +295,7 @@ TNext ==
          [] ev.a = "DeliverCommit" -> EvDeliverCommit(ev)
          [] ev.a = "TickPop"       -> EvTickPop(ev)
          [] ev.a = "Truncate"      -> EvTruncate(ev)
+         [] ev.a = "TruncateCancelled" -> EvTruncateCancelled(ev)
          [] ev.a \in {"Trust", "Untrust"} -> EvTrust(ev)
          [] ev.a = "Balance"       -> EvBalance(ev)
          [] ev.a = "BalanceRaced"  -> EvBalanceRaced(ev)
